@@ -51,3 +51,7 @@ READY = True
 
 # texts brought up to date with the rules above (they supersede the first versions at the top of the module)
 LEVEL_TEXT = LEVEL_TEXT + (" Also: degrading a single stored value clears the representation tag on every path; no one-step shift by cursor + c.")
+
+# texts brought up to date with the rules added in the last rounds
+LEVEL_TEXT = LEVEL_TEXT + ' The unsigned iterators leave the cursor at member + 1 in both representations (walk).'
+
